@@ -2,7 +2,7 @@
    (pcapgo/ngwrite*.go) was given; a truncated file gives a true prefix.
    Property theorems only; proofs in Proofs/NgExec.v, NgRoundtrip.v (one packet block), NgFile.v (whole
    files), NgPrefix.v and NgPrefixFile.v (truncation). *)
-From GP Require Import Base NgModel NgIoProofs NgWp NgSafeProofs NgExec NgRoundtrip NgFile NgPrefix NgPrefixFile NgFuel NgPrefixOwn NgUnmixed NgFull.
+From GP Require Import Base NgModel NgIoProofs NgWp NgSafeProofs NgExec NgRoundtrip NgFile NgPrefix NgPrefixFile NgFuel NgPrefixOwn NgUnmixed NgFull NgUnmixedPrefix.
 Open Scope Z_scope.
 
 Definition new_class (r : Z * list pkt * Z * rst) : Z := fst (fst (fst r)).
@@ -369,3 +369,22 @@ Proof.
   split; [vm_compute; repeat constructor|]. split; [unfold wif_ok, str_ok, sample_i0; cbn; unfold zlen; cbn; lia|].
   split; [unfold sec_ok, str_ok, sample_sec; cbn; unfold zlen; cbn; lia|]. split; reflexivity.
 Qed.
+
+(* C14_ng_prefix with WantMixedLinkType = false, for cuts at block boundaries (k = 0, any next block)
+   and inside interface description, statistics and decryption secrets blocks: the packets of the
+   complete blocks as in C14_ng_roundtrip_file_unmixed_partial; then ErrNgLinkTypeMismatch if a
+   rejected packet is among them, else io.EOF at the boundary and io.ErrUnexpectedEOF inside the
+   block.  Missing for WantMixedLinkType = false: cuts inside a packet block and inside the section
+   header / first interface block (read by NewNgReader). *)
+Theorem C14_ng_prefix_file_unmixed_partial : forall ro sec i0 ops pre nxt post k,
+  ro_mixed ro = false -> sec_ok sec -> ops_ok [] (WAddIf i0 :: ops) -> zlen ops < 4294967290 ->
+  ops = pre ++ nxt :: post -> (k < length (enc_op nxt))%nat -> (k = 0%nat \/ not_packet nxt) ->
+  let file := write_file sec i0 ops in
+  forall F, (fuel_for (zlen file) <= F)%nat ->
+  let cut := (length (enc_shb sec) + length (enc_idb i0) + length (enc_ops pre) + k)%nat in
+  let r := fst (run_d (session ro F) (firstn cut file)) in
+  let e := exp_unmixed (ro_errmis ro) (wi_link i0) [i0] pre in
+  new_class r = 0 /\ packets r = fst e
+  /\ end_class r = (if snd e =? 3 then 3 else if (k =? 0)%nat then 1 else 2).
+Proof. exact prefix_file_u. Qed.
+Print Assumptions C14_ng_prefix_file_unmixed_partial.
